@@ -1,8 +1,11 @@
 package props
 
 import (
+	"bytes"
 	"fmt"
 	"testing"
+
+	"github.com/DataDog/sketches-go/ddsketch/store"
 
 	"pgregory.net/rapid"
 	"verifharness/gen"
@@ -437,5 +440,90 @@ func TestC15_Sketch(t *testing.T) {
 		cl.labelIf(cycles > 1, "repeated-cycles")
 		cl.label(fmt.Sprintf("cycles:%d", min(cycles, 3)))
 		cl.done(h1bins >= 5 && mutating >= 2)
+	})
+}
+
+// TestC15_ManyPages: a paginated store (the other kinds run too) that held several hundred allocated pages before
+// Clear - more than any few-dozen-step history allocates - then a post-clear history on it and on a fresh twin that
+// allocates pages left and right of the first one, decodes contiguous blocks and receives bursts of unit entries.
+func TestC15_ManyPages(t *testing.T) {
+	rapid.Check(t, func(t *rapid.T) {
+		cl := newCase("C15")
+		kind := rapid.SampledFrom([]gen.StoreKind{{Name: "paginated"}, {Name: "paginated"}, {Name: "paginated"}, {Name: "dense"}, {Name: "sparse"}}).Draw(t, "kind")
+		a, b := kind.New(), kind.New()
+		pages := rapid.IntRange(200, 700).Draw(t, "pages")
+		first := rapid.IntRange(-400, 400).Draw(t, "firstpage")
+		stride := rapid.SampledFrom([]int{1, 1, 2, 3}).Draw(t, "pagestride")
+		for p := 0; p < pages; p++ {
+			a.AddWithCount(32*(first+p*stride)+rapid.IntRange(0, 31).Draw(t, "line"), 2.5)
+		}
+		cl.logf("C15 many pages kind=%s pages=%d first=%d stride=%d", kind, pages, first, stride)
+		cl.label("many-pages-before-clear")
+		cl.labelIf(pages > 256, "pages>256")
+		cl.label("kind:" + kind.Name)
+		cycles := rapid.IntRange(1, 2).Draw(t, "cycles")
+		for c := 0; c < cycles; c++ {
+			a.Clear()
+			b = kind.New()
+			n := rapid.IntRange(2, 12).Draw(t, "post")
+			for i := 0; i < n; i++ {
+				page := first + rapid.IntRange(-20, pages*stride+20).Draw(t, "page")
+				idx := 32*page + rapid.IntRange(0, 31).Draw(t, "pline")
+				switch rapid.IntRange(0, 3).Draw(t, "postop") {
+				case 0:
+					w := rapid.SampledFrom([]float64{0.5, 2, 3.25}).Draw(t, "w")
+					cl.logf("AddWithCount(%d,%v)", idx, w)
+					a.AddWithCount(idx, w)
+					b.AddWithCount(idx, w)
+				case 1:
+					k := rapid.IntRange(1, 40).Draw(t, "burst")
+					cl.logf("Add(%d) x%d", idx, k)
+					for j := 0; j < k; j++ {
+						a.Add(idx)
+						b.Add(idx)
+					}
+				case 2:
+					// a contiguous block spanning a few pages, decoded
+					src := store.NewDenseStore()
+					for j, m := 0, rapid.IntRange(20, 100).Draw(t, "run"); j < m; j++ {
+						src.AddWithCount(idx+j, 1.5)
+					}
+					enc := encodeStore(src)
+					cl.logf("decode of a run of bins from %d", idx)
+					if err := decodeInto(a, enc); err != nil {
+						t.Fatalf("C15 many pages: decode: %v", err)
+					}
+					_ = decodeInto(b, enc)
+				default:
+					o := kind.New()
+					o.AddWithCount(idx, 4)
+					o.Add(idx + 33)
+					cl.logf("merge {%d:4, %d:1}", idx, idx+33)
+					a.MergeWith(o)
+					b.MergeWith(o)
+				}
+				ga, gb := map[int]float64{}, map[int]float64{}
+				a.ForEach(func(i int, c float64) bool { ga[i] += c; return false })
+				b.ForEach(func(i int, c float64) bool { gb[i] += c; return false })
+				if fmt.Sprint(ga) != fmt.Sprint(gb) {
+					t.Fatalf("C15 many pages %s: cleared store holds %v, a new store given the same operations %v", kind, ga, gb)
+				}
+				amn, _ := a.MinIndex()
+				bmn, _ := b.MinIndex()
+				amx, _ := a.MaxIndex()
+				bmx, _ := b.MaxIndex()
+				if a.TotalCount() != b.TotalCount() || amn != bmn || amx != bmx || a.KeyAtRank(1) != b.KeyAtRank(1) {
+					t.Fatalf("C15 many pages %s: cleared (total %v, range [%d,%d], rank1 %d) vs new (total %v, range [%d,%d], rank1 %d)", kind, a.TotalCount(), amn, amx, a.KeyAtRank(1), b.TotalCount(), bmn, bmx, b.KeyAtRank(1))
+				}
+			}
+			if !bytes.Equal(encodeStore(a), encodeStore(b)) && kind.Name != "sparse" {
+				t.Fatalf("C15 many pages %s: the encodings of the cleared store and of the new one differ", kind)
+			}
+			// refill for the next cycle
+			for p := 0; p < pages; p++ {
+				a.AddWithCount(32*(first+p*stride)+7, 2.5)
+			}
+		}
+		cl.done(pages > 256 && kind.Name == "paginated")
 	})
 }
